@@ -351,6 +351,11 @@ class World(object):
                 tok = ed.args[0] if len(ed.args) == 1 and isinstance(ed.args[0], Token) else None
                 ok = tok is not None and set(ed.kwargs.keys()) == {'k'} and ed.kwargs['k'] is tok
                 arg = [1, tok.n if ok else 999]
+                exp = getattr(world, 'expected_event', {}).get(tok.n if tok is not None else None)
+                if exp is not None and getattr(ed, 'event', None) is not None and ed.event.name != exp:
+                    # the event object names another event than the one that was triggered (hierarchical machines
+                    # leave event_data.event unset when no active state handles the event: not judged)
+                    arg = [1, 996]
                 if slot in ('on_exception', 'finalize'):
                     err = None if ed.error is None else classify_exc(ed.error)
                 if slot in ('prepare', 'cond', 'unless') and getattr(ed, 'transition', None) is not None \
@@ -545,6 +550,7 @@ def impl_flat(case):
         tok = Token(a)
         world.items = []
         name = 'e%d' % e
+        world.expected_event = {a: name}
         try:
             if k == 0:
                 r = model.trigger(name, tok, k=tok)
@@ -596,6 +602,7 @@ def impl_flat_late(case):
         tok = Token(a)
         world.items = []
         name = 'e%d' % e
+        world.expected_event = {a: name}
         try:
             if k == 0:
                 r = model.trigger(name, tok, k=tok)
@@ -666,6 +673,7 @@ def impl_flat_async(case):
             tok = Token(a)
             world.items = []
             name = 'e%d' % e
+            world.expected_event = {a: name}
             try:
                 if k == 0:
                     r = _call(loop, model.trigger, name, tok, k=tok)
